@@ -227,6 +227,12 @@ def load_known():
     return json.load(open(KNOWN))
 
 
+def _conformance_child(seed):
+    from pyvc import conformance
+
+    return conformance.run(seed=seed)
+
+
 def match_known(known, prop, contract, cfg, obligation, detail):
     for f in known.get("findings", []):
         if f.get("property") != prop:
@@ -276,10 +282,12 @@ def check_property(prop, tier="quick", seed=0, jobs=None, write_baseline=False, 
     loader.import_repo()
     known = load_known()
     # facade conformance (evidence for the trusted base): models vs the installed libraries on seeded concrete inputs
+    # run in a forked child: the solver's heuristics depend on the order in which terms were created in the process, and the
+    # symbolic workers are forked from this one -- measured: the same configuration took 10 s / 60 s without / with the harness
+    # having run in the parent
     try:
-        from pyvc import conformance
-
-        conf = conformance.run(seed=seed)
+        with ProcessPoolExecutor(max_workers=1, mp_context=fork) as cpool:
+            conf = cpool.submit(_conformance_child, seed).result(timeout=300)
     except Exception as e:  # pragma: no cover
         conf = {"comparisons": 0, "agreed": 0, "disagreements": [f"harness crashed: {type(e).__name__}: {e}"]}
     # Phase A (bounded stand-in): native cross-check of the contracts on random inputs, run and FINISHED
